@@ -71,12 +71,16 @@ func runSweep(repo *Repo, opt *checkOpts, update bool) sweepOutcome {
 			defer func() {
 				if r := recover(); r != nil {
 					failed = true
+					if os.Getenv("GOVC_SWEEP_WHY") != "" {
+						fmt.Fprintf(os.Stderr, "sweep: %s: %v\n", k, r)
+					}
 				}
 			}()
 			fc := &FuncContract{Name: funcKey0(fn), Pkg: fn.Pkg.Pkg.Name(), Auto: true, LoopInv: map[int][]Clause{}, LoopDec: map[int]string{}, LoopMods: map[int][]string{}}
 			c = repo.newCtx(fc.Pkg)
 			c.refuted = map[string]bool{}
 			c.property = "C06"
+			c.sweep = true
 			verify(c, fn, fc, false)
 		}()
 		if failed || c == nil {
